@@ -30,6 +30,26 @@ CHECKS = {
              'str/bytes (ints and int tuples hash deterministically in CPython); replay runs real interpreters with 6 '
              'hash seeds. User-defined codes on a fixed scaffold, <= 2x2 (quick) incidences.',
         technique='symbolic execution of real Python with symbolic coordinates/supports (symx) + z3', ref='3/C02'),
+    'C05': dict(
+        text='The real MatchingDecoder, BeliefPropagationOSDDecoder (CSS / non-CSS, channel_update on/off), '
+             'UnionFindDecoder wiring and both sweep-match wrappers run on the syndrome of a fully symbolic Pauli error '
+             'with the third-party engines replaced by contract stubs (a solution of H c = s; minimum weight for '
+             'PyMatching; ldpc\'s osdw_decoding buffer refreshed only when OSD ran); z3 decides length 2n, binary, '
+             'syndrome(error+correction)=0, trivial syndrome -> trivial correction (also on a reused decoder) for all '
+             'errors. Constructibility over allowed_codes and the real union-find on weight<=2 errors are realised '
+             'instantiation lists with the real engines.',
+        note='The claim is about panqec\'s wiring under the engines\' documented contracts; internals of PyMatching, ldpc, '
+             'uf_support, MBP, XCube matching are not encoded (a change inside them is invisible).',
+        technique='symbolic execution of real Python (symx) + z3 with contract stubs for C engines', ref='3/C05'),
+    'C06': dict(
+        text='One decoder object is called twice (syndromes of two symbolic errors) and compared with a fresh object: '
+             'engine outputs are uninterpreted functions of (check-matrix content, priors currently held, syndrome), so '
+             'z3 decides purity by congruence; the caller\'s syndrome array and the lru_cached probability tables are '
+             'compared cell-wise (terms) before/after. Sweep / sweep-match decoders: caller\'s syndrome unchanged on a '
+             'symbolic 3-qubit error window with the automaton bounded; XCube matching: realised window with real engines.',
+        note='One earlier call stands for longer histories (the state panqec keeps between calls is what the stubs model '
+             'plus the cache). Hidden state inside the real C engines is outside.',
+        technique='symbolic execution of real Python (symx) + z3 EUF (uninterpreted engine functions)', ref='3/C06'),
     'C07': dict(
         text='probability_distribution with symbolic (p, r) is shown cell-wise equal to (1-p, p r_sigma) permuted by the '
              'real get_deformation, non-negative, summing to 1 (polynomial identities, z3 NRA); fast_choice / generate / '
@@ -58,6 +78,16 @@ CHECKS = {
         note='np.arange modelled (validated against real numpy on 3000 triples per run); value claim beyond the first '
              'two elements follows numpy\'s own progression (ulps); files part is a finite realised configuration list.',
         technique='symbolic execution of real Python with IEEE-754 terms (symx) + cvc5/z3 QF_BVFP; z3 NRA', ref='3/C19'),
+    'C20': dict(
+        text='qubit_representation / stabilizer_representation (base + every per-class override) run on SYMBOLIC '
+             'locations for every GUI code x deformation x {kitaev, rotated} x menu sizes: no path raises, every path '
+             'returns a complete description. /decode and /new-errors run through the Flask test client with recorder '
+             'stubs and solver-chosen menu options: the decoder, code (class, size, deformation) and noise model '
+             '(direction, deformation) built are the requested ones and the response is what they return. Decoder / '
+             'deformation menus and /code-data (H, logicals, counts, types) are ground tables through the same client.',
+        note='The JavaScript front end and Flask transport are outside; menu sizes intersected with the supported family.',
+        technique='symbolic execution of real Python with symbolic coordinates (symx) + z3; realised menu options',
+        ref='3/C20'),
     'C18': dict(
         text='The real error_probability (product and log form) runs on a fully symbolic error with arbitrary per-qubit '
              'distributions; z3 (LRA) shows every factor is the channel probability of the letter on that qubit, that '
@@ -86,6 +116,40 @@ CHECKS = {
              'variables e=[S|LX|LZ|D]v is used; H and the logicals are taken from the real object (C01/C02).',
         technique='symbolic execution of real Python (symx proxies) + z3 (XOR normal form, certified change of variables)',
         ref='3/C04'),
+    'C09': dict(
+        text='Real MatchingDecoder + get_weights with MatchStub: z3 decides that no competitor correction with the same '
+             'sector syndrome has smaller TRUE log-likelihood weight (LLR of the X-/Z-flip marginal, ln uninterpreted) '
+             'given that PyMatching is minimum-weight for the matrix and weights panqec handed it - i.e. the wiring '
+             '(Hz with X weights, Hx with Z weights, sector halves). With uniform weights, real decode + real is_success '
+             'on a symbolic error of weight <= floor((d-1)/2): always corrected (toric / planar / rotated planar).',
+        note='Exactness of PyMatching itself, and the union-find / sweep-match end-to-end guarantees, are NOT decided '
+             '(their control flow is the syndrome).',
+        technique='symbolic execution of real Python (symx) + z3 LRA/EUF/pseudo-Boolean; contract stub', ref='3/C09'),
+    'C10': dict(
+        text='flip_edge of both sweep decoders with a SYMBOLIC edge location and a fully symbolic state: state\' = state '
+             'xor (X-part column of H at the edge), all edges x all 2^m states; sweep_move from a symbolic window state '
+             '(the three sweep faces of one vertex), arbitrary prior correction on the candidate edges and a symbolic '
+             'tie-break draw: state change == face syndrome of the correction change, correction stays Z-only - one '
+             'inductive step of the invariant, for every vertex x sweep direction.',
+        note='Termination/success of the automaton is outside. Seam (wrap-around / boundary) and interior edges are '
+             'separate obligations.',
+        technique='symbolic execution of real Python with symbolic lattice coordinates (symx) + z3', ref='3/C10'),
+    'C11': dict(
+        text='Real run_once with stub noise model / decoder returning ARBITRARY binary vectors: recorded syndrome, '
+             'effective_error, codespace, success are decided equal to their definitions for all (error, correction) '
+             'pairs; real DirectSimulation run(k1); run(k2) with symbolic run lengths: list lengths == n_runs == k1+k2, '
+             'estimator and standard error formulas, every generate() gets the simulation\'s own rng.',
+        note='The statistical claim (unbiased estimate of the exact failure probability) is not decided.',
+        technique='symbolic execution of real Python (symx) + z3', ref='3/C11'),
+    'C12': dict(
+        text='Real BatchSimulation / BaseSimulation / save_json / load_json on an in-memory file system; the solver '
+             'chooses (n1 <= n2, save_frequency, crash point among all crash opportunities of the first run, kill vs '
+             'KeyboardInterrupt, grown specification); after a fault-free restart: completes, exact trial counts, last '
+             'completed save is a prefix, no duplicate trial, no foreign record adopted.',
+        note='Bounded fault-schedule exploration: the schedule variables are realised (the solver enumerates them); byte '
+             'offsets are represented by the classes {0, interior, complete}; one crash per history.',
+        technique='solver-enumerated fault schedules over the real code (symx realisation) on a modelled file system',
+        ref='3/C12'),
     'C13': dict(
         text='The real range parser / expander / simulation builder (_parse_all_ranges, expand_input_ranges, get_runs, '
              'get_simulations, read_input_dict, _parse_*_dict, DirectSimulation.__init__) runs with SYMBOLIC parameter '
@@ -101,6 +165,15 @@ CHECKS = {
              'exception, for every (N, C, #inputs) with N, C <= 3 (quick) / 5 (thorough).',
         note='glob / os / multiprocessing / print inside panqec.cli are recorder stubs.',
         technique='symbolic execution of real Python (symx) + z3 LIA', ref='3/C14'),
+    'C15': dict(
+        text='The real pandas pipeline (read_entry, aggregate, total / word / single-qubit error rates, sector counting '
+             'block) runs with SYMBOLIC trial contents (success, codespace, 2k effective-error bits per trial); z3 '
+             'decides pooled n_trials / n_fail, p_est, p_se, word error rate and its standard error, single-qubit '
+             'estimates and their own standard errors, sector counts and estimates equal their definitions for all trial '
+             'contents, for every enumerated split of the trials over entries / files / orders.',
+        note='Floats are reals; sqrt / k-th roots are fresh variables with defining constraints; threshold fitting is '
+             'stubbed out (C16). File discovery and container formats are I/O and outside.',
+        technique='symbolic execution of real Python/pandas (symx) + z3 NRA', ref='3/C15'),
     'C17': dict(
         text='The real in_codespace, is_logical_error and bsf_wt run on a fully symbolic Pauli operator; z3 shows no '
              'operator with zero syndrome, non-trivial logical action and weight < code.d exists and that weight d '
